@@ -132,6 +132,8 @@ func init() {
 	checks["C04"] = func(p *Program, r *Report) {
 		base04(p, r)
 		checkAccessors(p, r)
+		// a compaction must not undo a committed deletion or alter a committed record
+		copyRules(p, r, func(p *Program, r *Report) { checkCompactionTables(p, r, false, true) }, "COMPACT-RAW", "DT-TOMB-REF", "COMPACT-KEEP", "COMPACT-RANGE", "COMPACT-LIMITS")
 		r.Engines = append(r.Engines, "sibling")
 	}
 	base16 := checks["C16"]
